@@ -90,6 +90,8 @@ fn gen(rng: &mut Rng, idx: u64, _tier: Tier) -> Case {
     // corrupted frames at chosen history points
     let n_bad = rng.range(1, 4) as usize;
     let mut bad_at: Vec<usize> = (0..n_bad).map(|_| match rng.below(5) { 0 => 0, 1 => 1, 2 => 11.min(n), 3 => 12.min(n), _ => rng.below(n as u64 + 1) as usize }).collect();
+    // a noisy stretch of the channel: dozens of damaged squitters in a row
+    if rng.chance(0.04) { let at = rng.below(n as u64 + 1) as usize; for _ in 0..rng.range(18, 45) { bad_at.push(at); } }
     bad_at.sort();
     let mut sub = 0u64;
     for i in 0..=n {
